@@ -4,9 +4,9 @@ sources + flags + arguments) of the quick and thorough tiers.  DESIGN.md §4."""
 CHECKS = {}
 
 
-def tree_job(kind, name, n, iters=0, tear=0, inv=1, san='', unpacked=False, deadline=None, uchar=False, pack2=False):
+def tree_job(kind, name, n, iters=0, tear=0, inv=1, san='', unpacked=False, deadline=None, uchar=False, pack2=False, cc=None):
     defs = ['-DTREE_%s' % kind.upper()]
-    bn = '%s%s%s%s%s' % (kind, '-asan' if san else '', '-unpacked' if unpacked else '', '-uchar' if uchar else '', '-pack2' if pack2 else '')
+    bn = '%s%s%s%s%s%s' % (kind, '-asan' if san else '', '-unpacked' if unpacked else '', '-uchar' if uchar else '', '-pack2' if pack2 else '', '-' + cc if cc else '')
     if pack2:
         defs.append('-DTREE_PACK2')  # nodes at addresses that are 2 modulo 4 (the red-black node promises 2-byte alignment only)
     if unpacked:
@@ -16,7 +16,10 @@ def tree_job(kind, name, n, iters=0, tear=0, inv=1, san='', unpacked=False, dead
     args = ['--n', n, '--iters', iters, '--tear', tear, '--inv', inv]
     if deadline:
         args += ['--deadline', deadline]
-    return {'name': name, 'build_name': bn, 'harness': ['harness/tree.cpp'], 'repo_srcs': ['src/%s.c' % kind], 'defs': defs, 'san': san, 'args': args}
+    j = {'name': name, 'build_name': bn, 'harness': ['harness/tree.cpp'], 'repo_srcs': ['src/%s.c' % kind], 'defs': defs, 'san': san, 'args': args}
+    if cc:
+        j['cc'] = cc  # a second compiler: A_ASSUME, A_LIKELY and the other hint macros expand differently (clang does not evaluate an assumption)
+    return j
 
 
 def c01_jobs(tier):
@@ -24,12 +27,14 @@ def c01_jobs(tier):
         return [tree_job('avl', 'avl-packed-n18', 18, deadline=100),
                 tree_job('avl', 'avl-packed-asan-n13', 13, san='asan', deadline=100),
                 tree_job('avl', 'avl-unpacked-n14', 14, unpacked=True, deadline=100),
-                tree_job('avl', 'avl-unpacked-uchar-n12', 12, unpacked=True, uchar=True, deadline=100)]
+                tree_job('avl', 'avl-unpacked-uchar-n12', 12, unpacked=True, uchar=True, deadline=100),
+                tree_job('avl', 'avl-packed-clang-n14', 14, cc='clang', deadline=100)]
     return [tree_job('avl', 'avl-packed-n27', 27, deadline=2400),
             tree_job('avl', 'avl-packed-asan-n20', 20, san='asan', deadline=2400),
             tree_job('avl', 'avl-unpacked-n25', 25, unpacked=True, deadline=2400),
             tree_job('avl', 'avl-unpacked-asan-n18', 18, unpacked=True, san='asan', deadline=2400),
-            tree_job('avl', 'avl-unpacked-uchar-n20', 20, unpacked=True, uchar=True, deadline=2400)]
+            tree_job('avl', 'avl-unpacked-uchar-n20', 20, unpacked=True, uchar=True, deadline=2400),
+            tree_job('avl', 'avl-packed-clang-n22', 22, cc='clang', deadline=2400)]
 
 
 def c02_jobs(tier):
@@ -38,13 +43,15 @@ def c02_jobs(tier):
                 tree_job('rbt', 'rbt-packed-asan-n11', 11, san='asan', deadline=100),
                 tree_job('rbt', 'rbt-unpacked-n12', 12, unpacked=True, deadline=100),
                 tree_job('rbt', 'rbt-unpacked-uchar-n10', 10, unpacked=True, uchar=True, deadline=100),
-                tree_job('rbt', 'rbt-pack2-n12', 12, pack2=True, deadline=100)]
+                tree_job('rbt', 'rbt-pack2-n12', 12, pack2=True, deadline=100),
+                tree_job('rbt', 'rbt-packed-clang-n12', 12, cc='clang', deadline=100)]
     return [tree_job('rbt', 'rbt-packed-n24', 24, deadline=2400),
             tree_job('rbt', 'rbt-packed-asan-n17', 17, san='asan', deadline=2400),
             tree_job('rbt', 'rbt-unpacked-n22', 22, unpacked=True, deadline=2400),
             tree_job('rbt', 'rbt-unpacked-asan-n16', 16, unpacked=True, san='asan', deadline=2400),
             tree_job('rbt', 'rbt-unpacked-uchar-n18', 18, unpacked=True, uchar=True, deadline=2400),
-            tree_job('rbt', 'rbt-pack2-n18', 18, pack2=True, deadline=2400)]
+            tree_job('rbt', 'rbt-pack2-n18', 18, pack2=True, deadline=2400),
+            tree_job('rbt', 'rbt-packed-clang-n18', 18, cc='clang', deadline=2400)]
 
 
 def c03_jobs(tier):
@@ -55,7 +62,8 @@ def c03_jobs(tier):
                 tree_job('rbt', 'rbt-iter-tear-asan-n10', 10, 1, 1, 0, san='asan', deadline=100),
                 tree_job('avl', 'avl-unpacked-iter-tear-n11', 11, 1, 1, 0, unpacked=True, deadline=100),
                 tree_job('rbt', 'rbt-unpacked-iter-tear-n10', 10, 1, 1, 0, unpacked=True, deadline=100),
-                tree_job('rbt', 'rbt-pack2-iter-tear-n10', 10, 1, 1, 0, pack2=True, deadline=100)]
+                tree_job('rbt', 'rbt-pack2-iter-tear-n10', 10, 1, 1, 0, pack2=True, deadline=100),
+                tree_job('rbt', 'rbt-clang-iter-tear-n10', 10, 1, 1, 0, cc='clang', deadline=100)]
     return [tree_job('avl', 'avl-iter-tear-n23', 23, 1, 1, 0, deadline=2400),
             tree_job('rbt', 'rbt-iter-tear-n20', 20, 1, 1, 0, deadline=2400),
             tree_job('avl', 'avl-iter-tear-asan-n17', 17, 1, 1, 0, san='asan', deadline=2400),
